@@ -74,7 +74,17 @@ class RecSource(ScheduleSource):
             return asyncio.sleep(0)
         return None
 
-    def post_send(self, task: ScheduledTask) -> None:
+    def post_send(self, task: ScheduledTask) -> Any:
+        if self.spec.get("post_async"):
+            # a source that talks to a store: the hook is a coroutine (its work happens when it is awaited)
+            async def _p() -> None:
+                await asyncio.sleep(0)
+                self._post(task)
+            return _p()
+        self._post(task)
+        return None
+
+    def _post(self, task: ScheduledTask) -> None:
         self.rec.add("post_send", src=self.idx, sid=task.schedule_id)
         if task.time is not None and task.cron is None:
             self.items = [s for s in self.items if s.schedule_id != task.schedule_id]
@@ -173,7 +183,8 @@ def gen_c15_spec(rng: random.Random, minutes_max: int) -> Dict[str, Any]:
                                                      "add_at": 0.0, "bad": True})
             sid += 1
         npolls = minutes + 2
-        src: Dict[str, Any] = {"items": items, "lat": rng.choice([0, 0, 0.001, 0.2, 0.9])}
+        src: Dict[str, Any] = {"items": items, "lat": rng.choice([0, 0, 0.001, 0.2, 0.9]), "post_async": rng.random() < 0.3,
+                               "pre_async": rng.random() < 0.3}
         if rng.random() < 0.3:
             src["fail_calls"] = sorted(rng.sample(range(npolls), rng.randint(1, min(3, npolls))))
             src["fail_exc"] = [rng.choice(["SourceBoom", "TimeoutError", "ConnectionError", "KeyError"]) for _ in range(3)]
@@ -382,6 +393,16 @@ def oracle_c15(rec: Rec, info: Dict[str, Any], spec: Dict[str, Any]) -> "tuple[L
     for e in ev:
         if e["k"] in ("pre_send", "post_send") and e["sid"] in items and items[e["sid"]][0] != e["src"]:
             v.append(Violation("hooks-on-wrong-source", f"{e['k']} for schedule {e['sid']} (listed by source {items[e['sid']][0]}) was called on source {e['src']}"))
+            break
+    # every send the broker accepted is reported to the source (post_send has run) - checked for sends that were
+    # accepted at least a second before the run ended
+    done_kicks: Dict[str, int] = defaultdict(int)
+    for e in ev:
+        if e["k"] == "kick_done" and e["us"] < end_us - 1_000_000:
+            done_kicks[e["sid"]] += 1
+    for sid, n_done in done_kicks.items():
+        if sid in items and len(post[sid]) < n_done:
+            v.append(Violation("post-send-not-run", f"{sid}: the broker accepted {n_done} sends but the source's post_send ran {len(post[sid])} times"))
             break
     for sid, ks_ in kicks.items():
         if sid in items and len(pre[sid]) != len(ks_):
@@ -797,6 +818,9 @@ def run_c16a(spec: Dict[str, Any]) -> "tuple[List[Violation], Any]":
 def gen_c16b(rng: random.Random) -> Dict[str, Any]:
     tasks = []
     times = [S.to_us(datetime(2030, 1, 1)) + i * 1_000_000 for i in range(4)]
+    if rng.random() < 0.4:
+        # one-shot times that differ only below the second
+        times = [S.to_us(datetime(2030, 1, 1)) + d for d in (0, 250_000, 900_000, 1_000_000, 1_000_001, 2_500_000)]
     for ti in range(rng.randint(1, 4)):
         entries = []
         for _ in range(rng.randint(0, 5)):
